@@ -17,11 +17,15 @@ func TestMain(m *testing.M) { vt.Main(m) }
 // fnProvider is the custom confmap.Provider both checks use: it serves
 // whatever the retrieve function returns for a URI.
 type fnProvider struct {
-	scheme   string
-	retrieve func(uri string) (*confmap.Retrieved, error)
+	scheme    string
+	retrieve  func(uri string) (*confmap.Retrieved, error)
+	retrieveW func(uri string, w confmap.WatcherFunc) (*confmap.Retrieved, error)
 }
 
-func (p *fnProvider) Retrieve(_ context.Context, uri string, _ confmap.WatcherFunc) (*confmap.Retrieved, error) {
+func (p *fnProvider) Retrieve(_ context.Context, uri string, w confmap.WatcherFunc) (*confmap.Retrieved, error) {
+	if p.retrieveW != nil {
+		return p.retrieveW(uri, w)
+	}
 	return p.retrieve(uri)
 }
 func (p *fnProvider) Scheme() string                 { return p.scheme }
@@ -30,6 +34,12 @@ func (p *fnProvider) Shutdown(context.Context) error { return nil }
 func factory(scheme string, retrieve func(uri string) (*confmap.Retrieved, error)) confmap.ProviderFactory {
 	return confmap.NewProviderFactory(func(confmap.ProviderSettings) confmap.Provider {
 		return &fnProvider{scheme: scheme, retrieve: retrieve}
+	})
+}
+
+func factoryW(scheme string, retrieve func(uri string, w confmap.WatcherFunc) (*confmap.Retrieved, error)) confmap.ProviderFactory {
+	return confmap.NewProviderFactory(func(confmap.ProviderSettings) confmap.Provider {
+		return &fnProvider{scheme: scheme, retrieveW: retrieve}
 	})
 }
 
